@@ -31,9 +31,9 @@ import (
 
 type c18cReg struct{ c prometheus.Collector }
 
-func (r *c18cReg) Register(c prometheus.Collector) error  { r.c = c; return nil }
+func (r *c18cReg) Register(c prometheus.Collector) error   { r.c = c; return nil }
 func (r *c18cReg) MustRegister(cs ...prometheus.Collector) { r.c = cs[0] }
-func (r *c18cReg) Unregister(prometheus.Collector) bool   { return true }
+func (r *c18cReg) Unregister(prometheus.Collector) bool    { return true }
 
 // scrape drives Collect directly (what Registry.Gather does in a goroutine) and renders the result.
 func c18cScrape(c prometheus.Collector) ([]string, error) {
